@@ -58,6 +58,7 @@ class Graph:
                 n = self.edges[ei][0]
             p.reverse()
             return n, p
+        self.path_to = path_to
 
         uncovered = set(range(len(self.edges)))
         pending = defaultdict(list)   # node -> uncovered out-edge indices
@@ -81,6 +82,22 @@ class Graph:
                 if new:
                     walks.append((init, walk))
         return walks
+
+    def split_after_self_loops(self, walks):
+        """Cut every walk after each self-loop edge (an operation the model says changes nothing): the caller appends its probe
+        there, so that what follows such an operation is observed directly instead of through whatever edge happens to come next."""
+        out = []
+        for init, walk in walks:
+            cur = []
+            for i, ei in enumerate(walk):
+                cur.append(ei)
+                src, dst, _ = self.edges[ei]
+                if src == dst and i + 1 < len(walk):
+                    out.append((init, cur))
+                    init2, pre = self.path_to(dst)
+                    init, cur = init2, list(pre)
+            out.append((init, cur))
+        return out
 
 
 def limbs_to_int(text):
